@@ -85,6 +85,8 @@ def oracle(c):
             which = "TOY" if l.startswith("toy") else "RISC-V"
             if o.startswith("X"):
                 fails.append(Failure("oracle", PROP, f"{which} load raised {o.split()[1]} (neither a parser error nor the memory error) for text {text[:200]!r}", "load:ill-typed:" + o.split()[1]))
+            elif o.startswith("PE") and o.split()[2] == "illtyped":
+                fails.append(Failure("oracle", PROP, f"{which} parser error {o.split()[1]} carries ill-typed fields ({o.split(' ', 3)[3][:160]}) for text {text[:200]!r}", "load:ill-typed-fields"))
             elif o.startswith("PE"):
                 t = o.split()
                 ln = int(t[2])
